@@ -120,6 +120,16 @@ Section Gather.
       scatter voi result fill.                                                                (* full(fill)[voi] = result *)
 End Gather.
 
+(* ---------- geo-dim flattening: data (lead..., geo..., trail...) as a flat C-order buffer ---------- *)
+(* data.reshape(flat_src_shape) seen as L planes x Sn source pixels x T trailing values (L, T = products of the
+   leading / trailing non-geo sizes; a C-order reshape only regroups the buffer) *)
+Definition reshape_src (L Sn T : nat) (data : list Z) : list (list (list Z)) :=
+  unravel L Sn (unravel (L * Sn) T data).
+(* blockwise(_my_index, dst_adims, ia, (y,x), vii, flat, new_data, src_adims): result nested as [lead][y][x][trail] *)
+Definition resample_nested (L Sn T : nat) (fill : Z) (rows cols : list Z) (iablk : pslice -> pslice -> list (list Z))
+           (vii : list bool) (data : list Z) : list (list (list (list Z))) :=
+  map (gather_chunked (repeat fill T) rows cols iablk vii) (reshape_src L Sn T data).
+
 (* the numpy query: one batch over the valid target pixels (whole target, C order) *)
 Definition np_index_array (q : Z -> Z -> Z) (voi : list bool) (pix : list (Z * Z)) : list Z :=
   map (fun p => q (fst p) (snd p)) (compress voi pix).
